@@ -851,7 +851,10 @@ class Sim:
             if not colls:
                 return self.gen_op(rng, dict(cfg, ops=["obj_set"]), sess)
             leaf = rng.choice(["path_line_width", "opacity", "color", "magnetization_show",
-                               "magnetization_color_north", "size", "arrow_width", "path_marker_symbol"])
+                               "magnetization_color_north", "size", "arrow_width", "path_marker_symbol",
+                               "arrow_size", "line_width", "pixel_size", "pivot", "magnetization_arrow_width",
+                               "orientation_size", "description_show", "legend_show", "path_frames",
+                               "magnetization_color_mode", "mesh_grid_show", "sizemode"])
             op = {"op": "children_styles", "o": rng.choice(colls),
                   "items": [[leaf, rng.choice(sm.VALID[sm.kind_of(leaf)])]]}
             if rng.random() < 0.4:
